@@ -288,7 +288,71 @@ def d4(prog, ctx):
         ctx.ok("D4", "%s:%d" % (DSP, mg[0].lineno), "per-chromosome stats merged once per result")
 
 
+def d5(prog, ctx):
+    """reset() of the alignment storages re-initialises every mutable attribute the constructor sets
+    (state leaking from one alignment cluster into the next makes get_alignments return wrong slices)."""
+    n = 0
+    for m, q, c in prog.all_classes():
+        if m.rel != AP:
+            continue
+        meths = prog.methods_of(c, inherited=False)
+        if "reset" not in meths or "__init__" not in meths:
+            continue
+        n += 1
+
+        def attrs_set(f):
+            out = {}
+            for st in walk_no_nested(f):
+                if isinstance(st, ast.Assign):
+                    for t in st.targets:
+                        d = dotted(t)
+                        if d and d.startswith("self.") and d.count(".") == 1:
+                            out[d[5:]] = st
+            return out
+        init, reset = attrs_set(meths["__init__"]), attrs_set(meths["reset"])
+        # base reset must be chained if the base has one
+        for attr, st in sorted(init.items()):
+            v = st.value
+            mutable = isinstance(v, (ast.Dict, ast.List, ast.Set)) or (isinstance(v, ast.Call) and (call_name(v) or "") in
+                                                                        ("defaultdict", "dict", "list", "set")) \
+                or (isinstance(v, ast.Constant) and isinstance(v.value, (int, bool)) and not isinstance(v.value, str)) \
+                or (isinstance(v, ast.Constant) and v.value is None)
+            if not mutable:
+                continue
+            if attr in ("bam_merger",):
+                continue
+            if attr not in reset:
+                ctx.fail("D5", meths["reset"], "%s.reset" % c.name, "self.%s" % attr,
+                         "%s.__init__ initialises self.%s but reset() does not: the index/state of one alignment cluster leaks into "
+                         "the next one and get_alignments() selects reads with stale bounds" % (c.name, attr))
+            elif src(reset[attr].value) != src(v):
+                ctx.fail("D5", reset[attr], "%s.reset" % c.name, src(reset[attr]), "reset() sets self.%s to %s, the constructor to %s"
+                         % (attr, src(reset[attr].value), src(v)))
+            else:
+                ctx.ok("D5", "%s:%d" % (AP, reset[attr].lineno), "%s.reset re-initialises self.%s" % (c.name, attr))
+        bases = [dotted(b) for b in c.bases]
+        for b in bases:
+            bc = prog.find_class(b.split(".")[-1]) if b else []
+            if bc and "reset" in prog.methods_of(bc[0][1], inherited=False):
+                if "%s.reset(self)" % b not in src(meths["reset"]) and "super().reset()" not in src(meths["reset"]):
+                    ctx.fail("D5", meths["reset"], "%s.reset" % c.name, "base reset", "reset() does not chain to %s.reset" % b)
+    ctx.floor("D5", "storage classes with reset()", n, 3)
+    # duplicate search must compare every pair: no early exit from either loop
+    fd = prog.func("src/multimap_resolver.py", "MultimapResolver.find_duplicates")
+    loops = [l for l in walk_no_nested(fd) if isinstance(l, ast.For)]
+    if len(loops) < 2:
+        raise AnalysisError("find_duplicates: nested comparison loops not found")
+    jumps = [x for l in loops for x in ast.walk(l) if isinstance(x, (ast.Break, ast.Return))]
+    if jumps:
+        ctx.fail("D5", jumps[0], fd._qualname, src(jumps[0]), "the duplicate search leaves a loop early: with three or more copies of a "
+                 "record (read seen in three sub-regions) only some are discarded and identical records are reported twice")
+    else:
+        ctx.ok("D5", "src/multimap_resolver.py:%d" % fd.lineno, "find_duplicates compares every remaining pair (no break/return in the loops)")
+
+
 def run(prog, ctx):
+    ctx.rule("D5", "every mutable attribute initialised by a storage class's __init__ is re-initialised to the same value by its "
+                   "reset() (and base reset is chained); the duplicate search loops have no early exit")
     ctx.rule("D1", "inventory of the read path (process -> process_genic/intergenic -> temp file -> loader -> stage-2 loop -> printers): "
                    "every continue/return/break before a read is forwarded is controlled only by atoms of the documented filter "
                    "vocabulary; forwarding statements are unconditional; final printers use PrintAllFunctor")
@@ -301,6 +365,7 @@ def run(prog, ctx):
     d2(prog, ctx)
     d3(prog, ctx)
     d4(prog, ctx)
+    d5(prog, ctx)
     ctx.assume("whether coverage-valley splitting and the per-region re-fetch return every overlapping alignment is bin arithmetic on "
                "runtime coordinates and is NOT decided (a defect of InMemoryAlignmentStorage.get_alignments in exactly that part is "
                "described in DESIGN.md section 7)")
